@@ -49,9 +49,10 @@ def judge(ctx, leg, items, links, exp_res, exp_title, o, depth):
             if txt != f"L{l + 1}":
                 ctx.violation(f"link {l + 1} '#{name}': explicit text L{l + 1} not kept (observed {txt!r})", case)
                 return
-        elif exp[0] != "missing":
+        elif exp[0] != "missing":      # "empty" and "auto" (<project:#name>) forms
             t = exp_title[l]
-            want = o["sec_titles"].get(t, "") if t else "#" + name      # the title as it stands in the doctree (images dropped)
+            # the title as it stands in the doctree (images dropped); an empty title counts as none
+            want = (o["sec_titles"].get(t, "") if t else "") or "#" + name
             if txt != want:
                 ctx.violation(f"link {l + 1} '[](#{name})': text should be " + ("the target's title " if t else "") + f"{want!r}, observed {txt!r}", case)
                 return
